@@ -441,7 +441,11 @@ pub fn value_accessors_disagree(xot: &Xot, n: Node) -> Option<String> {
     if xot.is_document_element(n) != (parent_is_doc && vt == VT::Element) {
         return Some(format!("is_document_element({}) = {}", d, xot.is_document_element(n)));
     }
-    // text_content / text_content_str: defined through the ordinary children
+    // text_content / text_content_str: defined through the ordinary children - of an element (the documentation speaks of
+    // elements only; what they answer for other kinds of node is not judged)
+    if vt != VT::Element {
+        return None;
+    }
     let first = xot.first_child(n);
     let only_text: Option<&str> = match first {
         Some(c) if xot.next_sibling(c).is_none() => xot.text_str(c),
